@@ -246,9 +246,10 @@ class C01(EngineBase):
             st.log.add("raised", [op, type(exc).__name__])
             if inplace:
                 # no claim about the target of a failed in-place call
-                t = vals[0]
-                for n in [n for n, v in heap.items() if v is t]:
-                    del heap[n]
+                for tn in ops.inplace_targets(step):
+                    t = heap.get(tn)
+                    for n in [n for n, v in heap.items() if v is t]:
+                        del heap[n]
             return
         st.stats["step.ok"] += 1
         st.stats["op." + op] += 1
